@@ -135,6 +135,7 @@ fn main() {
 		"panicfam" => props::panicfam::run(&cfg),
 		"poisonfam" => props::poisonfam::run(&cfg, false),
 		"poisonsoak" => props::poisonfam::run(&cfg, true),
+		"ownedconc" => props::ownedconc::run(&cfg),
 		"orderfam" => props::orderfam::run(&cfg),
 		"seqfam" => props::seqfam::run(&cfg),
 		"tuplefam" => props::tuplefam::run(&cfg),
